@@ -370,6 +370,18 @@ def check(repo: Repo, run: Run) -> None:
                 continue
             ok = w is not None and w in got
             run.ob("C07.L6", f"{label}.literal|{term}", ok, f"{label}.literal builds `{got[:60]}` for {term}; needs {w}", str(ev.path))
+    # L6b: the text of a numeric literal reaches the constructor / the generated source as spelled (minus the u
+    # suffix): editing the digits with a regular expression or replace/strip changes the number for spellings the
+    # pattern did not foresee (`0xa001` with leading-zero stripping becomes 0xa1)
+    for label, tab in (("Evaluator", ti), ("Phase1Transpiler", tt)):
+        for term in ("INT_LIT", "UINT_LIT", "FLOAT_LIT"):
+            txt6 = tab.get(term)
+            if txt6 is None:
+                continue
+            edits = [k for k in (".sub(", "re.sub(", ".replace(", ".lstrip(", ".strip(", ".translate(") if k in txt6]
+            run.ob("C07.L6", f"{label}.literal|{term}|digits as spelled", not edits,
+                   f"{label}.literal passes the {term} text on as spelled" if not edits else
+                   f"{label}.literal edits the digits of {term} textually (`{txt6[:80]}`): hexadecimal spellings contain letters the pattern treats as boundaries, so some literals denote another number", str(ev.path))
     for label, tab in (("Evaluator", ti), ("Phase1Transpiler", tt)):
         u = tab.get("UINT_LIT", "")
         run.shape("C07.L6", f"{label}.literal|UINT suffix", "[:-1]" in u, f"{label}.literal strips the u suffix: `{u[:60]}`", str(ev.path))
